@@ -37,7 +37,7 @@ def sig_of(e, events=None, k=None):
         if f:
             return {"clause": "agree", "cause": f[0]}
         return {"clause": "agree", "cause": "other", "tpl": e.get("tpl", ""), "prog": prog}
-    f = J.features(prog)
+    f = J.features(prog) + list(e.get("mo", []))
     if f:
         return {"clause": "spec", "cause": f[0]}
     if e.get("dup") and e.get("sens_g"):
